@@ -627,6 +627,114 @@ def rule_bit_dtype(repo: Repo, rep: Report) -> int:
     return n
 
 
+def pi4_state_machine(rep: Report, fwd: FuncInfo, cname: str) -> int:
+    """Symbol i of a call uses the rotated set iff state XOR (i odd); in training mode the state left behind is
+    state XOR (n odd) - the set of the *next* symbol - and in evaluation mode the state is unchanged.  The flag logic of
+    forward is sliced out (assignments of flag variables, the selections of the constellation, the state stores, the
+    enclosing loops / branches) and run with the checker's own arithmetic for n = 1..4 symbols, both initial states and
+    every layout / output-mode path."""
+    import copy
+
+    from ..frag import FragRaise, FragReturn, run_fragment
+
+    STATE = "self._use_rotated"
+    flags = set()
+    assigns = [s_ for s_ in ast.walk(fwd.node) if isinstance(s_, ast.Assign) and len(s_.targets) == 1 and isinstance(s_.targets[0], ast.Name)]
+    loop_vars = {x.id for l_ in ast.walk(fwd.node) if isinstance(l_, ast.For) for x in ast.walk(l_.target) if isinstance(x, ast.Name)}
+    for _ in range(5):
+        for s_ in assigns:
+            v_ = s_.value
+            derived = any((isinstance(x, ast.Attribute) and attr_chain(x) == STATE) or (isinstance(x, ast.Name) and x.id in flags) for x in ast.walk(v_))
+            # a flag variable is a function of the state, other flag variables, loop counters and constants only
+            pure = all(x.id in flags or x.id in loop_vars or x.id in ("bool", "int", "torch", "self", "True", "False") for x in ast.walk(v_) if isinstance(x, ast.Name)) and all(attr_chain(x) == STATE or (attr_chain(x) or "").startswith(STATE + ".") or (attr_chain(x) or "").startswith("torch.") for x in ast.walk(v_) if isinstance(x, ast.Attribute)) and not any(isinstance(x, ast.Subscript) for x in ast.walk(v_))
+            if derived and pure:
+                flags.add(s_.targets[0].id)
+    if not flags:
+        rep.undecided("MEMORY", fwd, f"{cname}: alternation state machine", "no variable derived from the state flag found")
+        return 1
+
+    def flag_test(t: ast.AST) -> bool:
+        return any(isinstance(x, ast.Name) and x.id in flags for x in ast.walk(t)) and not any(isinstance(x, ast.Subscript) for x in ast.walk(t))
+
+    def selects(node: ast.AST) -> bool:
+        return any(isinstance(x, (ast.Name, ast.Attribute)) and (attr_chain(x) or "").split(".")[-1] in ("qpsk_rotated",) for x in ast.walk(node))
+
+    def trace(test: ast.AST) -> ast.stmt:
+        return ast.Expr(value=ast.Call(func=ast.Attribute(value=ast.Name(id="sel__", ctx=ast.Load()), attr="append", ctx=ast.Load()), args=[ast.Call(func=ast.Name(id="bool", ctx=ast.Load()), args=[copy.deepcopy(test)], keywords=[])], keywords=[]))
+
+    def slice_body(stmts):
+        out = []
+        for st in stmts:
+            if isinstance(st, ast.Assign) and len(st.targets) == 1:
+                t = st.targets[0]
+                if isinstance(t, ast.Name) and t.id in flags:
+                    out.append(st)
+                elif attr_chain(t) == STATE:
+                    out.append(st)
+                elif isinstance(st.value, ast.IfExp) and flag_test(st.value.test) and selects(st.value):
+                    pos = selects(st.value.body) and not selects(st.value.orelse)
+                    out.append(trace(st.value.test if pos else ast.UnaryOp(op=ast.Not(), operand=st.value.test)))
+                elif isinstance(t, ast.Name) and t.id in ("batch_shape", "symbol_shape", "symbol_len"):
+                    continue
+            elif isinstance(st, ast.If):
+                if flag_test(st.test) and (selects(ast.Module(body=st.body, type_ignores=[])) or selects(ast.Module(body=st.orelse, type_ignores=[]))):
+                    pos = selects(ast.Module(body=st.body, type_ignores=[])) and not selects(ast.Module(body=st.orelse, type_ignores=[]))
+                    out.append(trace(st.test if pos else ast.UnaryOp(op=ast.Not(), operand=st.test)))
+                else:
+                    b, o = slice_body(st.body), slice_body(st.orelse)
+                    if b or o:
+                        out.append(ast.If(test=st.test, body=b or [ast.Pass()], orelse=o))
+            elif isinstance(st, (ast.For, ast.While)):
+                b = slice_body(st.body)
+                if b:
+                    new = copy.copy(st)
+                    new.body, new.orelse = b, []
+                    out.append(new)
+            elif isinstance(st, ast.Return):
+                out.append(ast.Return(value=None))
+            elif isinstance(st, ast.Expr) and isinstance(st.value, ast.Call) and isinstance(st.value.func, ast.Attribute) and st.value.func.attr in ("fill_", "copy_") and attr_chain(st.value.func.value) == STATE:
+                out.append(st)
+        return out
+
+    prog = [ast.fix_missing_locations(x) for x in slice_body(fwd.body)]
+    what = f"{cname}: constellation alternation and state hand-over"
+    layouts = [{"batch_shape": PySeq([])}, {"batch_shape": PySeq([2])}]
+    modes = [{"noise_var": None, "self.soft_output": False}, {"noise_var": 0.5, "self.soft_output": False}, {"noise_var": None, "self.soft_output": True}]
+    runs = 0
+    for lay in layouts:
+        for mode in modes:
+            for training in (True, False):
+                for b0 in (False, True):
+                    for nsym in (1, 2, 3, 4):
+                        names = {"sel__": PySeq([]), "symbol_shape": nsym, "symbol_len": nsym, "batch_shape": lay["batch_shape"], "noise_var": mode["noise_var"]}
+                        attrs = {STATE: b0, "self.training": training, "self.soft_output": mode["self.soft_output"]}
+                        try:
+                            env = run_fragment(prog, names, attrs, max_steps=5000)
+                            sel, final = env.get("sel__"), env["__attrs__"].get(STATE)
+                        except FragReturn as fr:
+                            env = getattr(fr, "env", None)
+                            if env is None:
+                                rep.undecided("MEMORY", fwd, what, "an early return inside the sliced state machine could not be followed")
+                                return 1
+                            sel, final = env.get("sel__"), env["__attrs__"].get(STATE)
+                        except (Unfoldable, FragRaise, TypeError) as exc:
+                            rep.undecided("MEMORY", fwd, what, f"state machine not evaluable ({exc})")
+                            return 1
+                        runs += 1
+                        want_sel = [bool(b0) != bool(i % 2) for i in range(nsym)]
+                        want_final = (bool(b0) != bool(nsym % 2)) if training else bool(b0)
+                        got_sel = [bool(x) for x in sel] if isinstance(sel, list) else None
+                        ctx = f"{nsym} symbol(s), state {b0}, {'training' if training else 'eval'} mode, {'batched' if lay['batch_shape'] else '1-D'} input, noise_var={mode['noise_var']}, soft_output={mode['self.soft_output']}"
+                        if got_sel != want_sel:
+                            rep.violation("MEMORY", fwd, what, f"with {ctx} the rotated set is selected at {got_sel} instead of {want_sel}: modulator and demodulator no longer use the same set at the same symbol position", node=fwd.node)
+                            return 1
+                        if isinstance(final, list) or bool(final) != want_final:
+                            rep.violation("MEMORY", fwd, what, f"with {ctx} the state left for the next call is {final} instead of {want_final} (the set of the next symbol): the following frame is processed a quarter turn out of step with the other side", node=fwd.node)
+                            return 1
+    rep.ok("MEMORY", fwd, what, f"symbol i uses the rotated set iff state XOR (i odd); hand-over state XOR (n odd) in training, unchanged in eval ({runs} runs of the sliced flag logic)")
+    return 1
+
+
 def rule_oqpsk_interleave(repo: Repo, rep: Report) -> int:
     """The OQPSK demodulator returns, for every row, i0 q0 i1 q1 ...: each return expression of forward is evaluated (own
     list arithmetic) with the in-phase / quadrature decision tensors replaced by labelled index tensors, for inputs of shape
@@ -1069,6 +1177,7 @@ def rule_memory(repo: Repo, rep: Report) -> int:
     for cname in ("Pi4QPSKModulator", "Pi4QPSKDemodulator"):
         ci = repo.cls(f"{MD}/pi4qpsk.py", cname)
         fwd = repo.method(ci, "forward")
+        n += pi4_state_machine(rep, fwd, cname)
         set_parents(fwd.node)
         inits = [s for s in ast.walk(fwd.node) if isinstance(s, ast.Assign) and isinstance(s.targets[0], ast.Name) and s.targets[0].id == "use_rotated" and match(s.value, "self._use_rotated.clone()") is not None]
         toggles = [s for s in ast.walk(fwd.node) if isinstance(s, ast.Assign) and isinstance(s.targets[0], ast.Name) and s.targets[0].id == "use_rotated" and match(s.value, "~use_rotated") is not None]
